@@ -22,6 +22,8 @@ class P(vlib.Prop):
             "unsigned, spliced or tampered; validator: whenever ResolveWorld succeeds every own AND sibling index that reached resolution was authorised; model = the two ignore arguments read from the source. "
             "files stage: histories of GetRepositoryIndexes calls over local repositories whose index files are rewritten between calls with explicit mtimes; validator: every returned version is authorised by the call and a repository "
             "whose index in place is visibly the newest and does not verify under the call is not used; compared with the model of the local-file cache branch. "
+            "etag stage: the same kind of histories over remote repositories served with an ETag (fresh and reused ETags), compared with the model of the per-ETag cache entries and forget. "
+            "The parse stage also hands the harness's own decoding of every configured key file (no PEM block / not PKIX DER / not RSA / RSA) to the staged model of RSAVerifyDigest read from signature/rsa.go. "
             "interleave stage (best effort, no model): loads of a signed and an exempted remote repository with bodies of equal length under logger-steered, server-stalled and free schedules, GOMAXPROCS 1 and 2, repeated; "
             "validator: what a call returns for a repository carries that repository's marker packages. "
             "A parse case is non-trivial when the archive has a signature member with at least one entry; distinct = distinct case terms.")
@@ -33,6 +35,7 @@ class P(vlib.Prop):
         dict(name="vctx", cmd="c04", args=lambda t, s: ["-stage", "vctx"]),
         dict(name="wiring", cmd="c04", args=lambda t, s: ["-stage", "wiring"]),
         dict(name="files", cmd="c04", args=lambda t, s: ["-stage", "files"]),
+        dict(name="etag", cmd="c04", args=lambda t, s: ["-stage", "etag"]),
         dict(name="interleave", cmd="c04", args=lambda t, s: ["-stage", "interleave"]),
     )
     assumptions = (
@@ -56,6 +59,7 @@ class P(vlib.Prop):
     modelled_not_verified = ("parseRepositoryIndex, IndexFromArchive, shouldCheckSignatureForIndex, IndexURL, verificationContext are modelled by hand (Model/Index.v, IndexBytes.v, IndexVctx.v) around constants, tables and statement shapes "
                              "regenerated from the source (Generated/IndexConsts.v, IndexShapes.v, Regexes.v); indexCache.get/GetRepositoryIndexes only as a cache discipline (no pin name, ETag change, mtime re-read, missing-file skip); "
                              "ResolveWorld's two index loads (Model/IndexWiring.v) and the local-file branch of indexCache.get over rewritten files (Model/IndexCacheFiles.v) are modelled by hand around the arguments read from the source; "
-                             "RSAVerifyDigest, gzip, tar are oracles exercised by the parse, sweep and vctx stages; memory aliasing between concurrent loads is searched for by the interleave stage only; expandapk.Split is not on the index path")
+                             "RSAVerifyDigest is modelled in stages from the statement list read from the source (Model/IndexRsa.v), its four library calls (pem.Decode, ParsePKIXPublicKey, the RSA type assertion, VerifyPKCS1v15) are oracles; "
+                             "the ETag branch of indexCache.get is Model/IndexCacheEtag.v (no HEAD failures, no missing ETag, no concurrency of sync.Once); gzip, tar are oracles exercised by the parse, sweep and vctx stages; memory aliasing between concurrent loads is searched for by the interleave stage only; expandapk.Split is not on the index path")
 
 PROP = P()
